@@ -292,8 +292,8 @@ impl HeaderMetadataSpec {
                         success_order,
                         failure_order,
                     )
-                    .map(|x| FromPrimitive::from_u8(x).unwrap())
-                    .map_err(|x| FromPrimitive::from_u8(x).unwrap())
+                    .map(|x| FromPrimitive::from_u8(self.get_bits_from_u8(x)).unwrap())
+                    .map_err(|x| FromPrimitive::from_u8(self.get_bits_from_u8(x)).unwrap())
             }
         } else {
             let addr = self.meta_addr(header);
@@ -306,7 +306,7 @@ impl HeaderMetadataSpec {
                 (old_metadata, new_metadata)
             };
 
-            unsafe {
+            let res = unsafe {
                 T::compare_exchange(
                     addr,
                     old_metadata,
@@ -314,6 +314,12 @@ impl HeaderMetadataSpec {
                     success_order,
                     failure_order,
                 )
+            };
+            // Like `load`, only report the bits selected by the mask.
+            if let Some(mask) = optional_mask {
+                res.map(|x| x.bitand(mask)).map_err(|x| x.bitand(mask))
+            } else {
+                res
             }
         }
     }
